@@ -672,7 +672,14 @@ def _call_target(target, variant, seed, prior, td, fail_at=None, outer_seed=None
         setattr(smod, stub[1], _stub_convert_to_phase)
     cwd = os.getcwd()
     try:
-        if isinstance(variant, list):               # ["auto", keyword, value]: base fixture with one keyword deviating
+        if isinstance(variant, list) and variant[0] == "ro":
+            # ["ro", base variant, state]: the model is called at a later read of a NON-DESTRUCTIVE multi-readout
+            # exposure (what run_pipeline has set up when step 2 of 3 starts)
+            det, kw = fx(td, variant[1])
+            det.set_readout(times=[1.0, 2.0, 3.0], start_time=0.0, non_destructive=True)
+            rp = det.readout_properties
+            rp.time, rp.time_step, rp.pipeline_count = 2.0, 1.0, 1
+        elif isinstance(variant, list):             # ["auto", keyword, value]: base fixture with one keyword deviating
             det, kw = fx(td, 0)
             kw = dict(kw, **{variant[1]: variant[2]})
         else:
@@ -798,7 +805,7 @@ def _model_cases(tier, target, kind):
     fx, nvar = FIXTURES[target]
     seeds = MODEL_SEEDS[tier] if "seed-parameter" in kind else (None,)
     cases = []
-    for variant in list(range(nvar)) + _auto_variants(target):
+    for variant in list(range(nvar)) + [["ro", 0, "nd2"]] + _auto_variants(target):
         for s in (seeds if not isinstance(variant, list) else seeds[:1]):
             priors = list(MODEL_PRIORS[tier])
             cases.append({"part": "model", "target": target, "kind": kind, "variant": variant, "seed": s,
